@@ -45,6 +45,7 @@ def parseEvent : List String → Option Event
 def showPanic : Panic → String
   | .sendClosed => "panic:send-closed"
   | .closeClosed => "panic:close-closed"
+  | .closeNil => "panic:close-nil"
   | .nilElem => "panic:nil-elem"
 
 def showWake : Wake → String
